@@ -61,6 +61,17 @@ class Builder:
         pool = self.c.get("name_pool")
         return "%s%s" % (self.r.choice(pool), self.uid if self.r.random() < 0.5 else "")
 
+    def pp(self, base=None):
+        """Optional data for a new element: an EDIF identifier and/or a user key (C13, C17)."""
+        c, r = self.c, self.r
+        d = dict(base) if base else {}
+        if c.get("ident_rate") and r.random() < c["ident_rate"]:
+            d["EDIF.identifier"] = "%s%s" % (r.choice(["a", "A", "ab", "aB", "x", "X"]),
+                                             self.uid if r.random() < 0.6 else "")
+        if c.get("userkey_rate") and r.random() < c["userkey_rate"]:
+            d["k"] = r.choice(["v", "V", "w", "vw"])
+        return d or None
+
     def width(self):
         return self.r.randint(1, self.c["max_width"])
 
@@ -69,7 +80,7 @@ class Builder:
         for _ in range(n):
             wdt = self.width()
             arr = wdt > 1 or self.r.random() < self.c["array_rate"]
-            e = {"op": "create_port", "on": d, "name": self.nm("p"), "pins": wdt,
+            e = {"op": "create_port", "on": d, "name": self.nm("p"), "pins": wdt, "props": self.pp(),
                  "direction": self.r.choice(["in", "out", "inout", "in", "out"])}
             if arr:
                 e["is_scalar"] = False
@@ -85,13 +96,13 @@ class Builder:
         self.netlist = "e%d.0" % n
         libs = []
         for k in range(c["n_libs"]):
-            i = self.emit({"op": "create_library", "on": self.netlist, "name": "lib%d" % k})
+            i = self.emit({"op": "create_library", "on": self.netlist, "name": "lib%d" % k, "props": self.pp()})
             libs.append("e%d.0" % i)
         self.libs = libs
         # level 0: leaves (ports only)
         for k in range(c["n_leaf"]):
             lib = r.choice(libs)
-            i = self.emit({"op": "create_definition", "on": lib, "name": self.nm(r.choice(LEAF_NAMES))})
+            i = self.emit({"op": "create_definition", "on": lib, "name": self.nm(r.choice(LEAF_NAMES)), "props": self.pp()})
             d = "e%d.0" % i
             ports = self.make_ports(d, r.randint(0 if r.random() < 0.1 else 1, c["max_ports"]), True)
             self.defs.append({"h": d, "level": 0, "ports": ports, "leaf": True})
@@ -114,7 +125,7 @@ class Builder:
                     nm = "%s_sdn_unique_%d" % (r.choice(prev)["name"], r.randint(0, 3))
                     if any(x.get("name") == nm for x in self.defs):
                         nm = self.nm("mod")
-                i = self.emit({"op": "create_definition", "on": lib, "name": nm})
+                i = self.emit({"op": "create_definition", "on": lib, "name": nm, "props": self.pp()})
                 d = "e%d.0" % i
                 ports = self.make_ports(d, r.randint(0 if r.random() < 0.15 else 1, c["max_ports"]), False)
                 rec = {"h": d, "level": level, "ports": ports, "leaf": False, "name": nm, "lib": lib}
@@ -163,7 +174,7 @@ class Builder:
                         cands = lower
                     t = r.choice(cands)
                     pool.append(t)
-                props = {"k": "v%d" % self.uid} if c.get("child_props") and r.random() < 0.5 else None
+                props = self.pp({"k": "v%d" % self.uid} if c.get("child_props") and r.random() < 0.5 else None)
                 i = self.emit({"op": "create_child", "on": d, "name": self.nm("u"), "ref": t["h"], "props": props})
                 kids.append(("e%d.0" % i, t))
         # free endpoints of this definition
@@ -180,7 +191,7 @@ class Builder:
         wires = []
         for _ in range(ncab):
             wdt = self.width()
-            e = {"op": "create_cable", "on": d, "name": self.nm("n"), "wires": wdt}
+            e = {"op": "create_cable", "on": d, "name": self.nm("n"), "wires": wdt, "props": self.pp()}
             if wdt > 1 or r.random() < c["array_rate"]:
                 e["is_scalar"] = False
                 if c["lsb"]:
